@@ -4,17 +4,26 @@ of every FAT / DIFAT / directory / mini-FAT / mini-stream / stream sector, direc
 unused entries, free sectors, surplus table sectors, padding) are generated here, ENCODED by the
 extracted Coq encoder `Cfb.cfb_write` (vm cfb_write), then read by the real code through the hook
 around Cfb::new / has_directory / get_stream (vh cfb) and by the extracted model (vm cfb).
-Spec side: the streams the generator put in.  End to end: real .xls fixtures are parsed by a small
-independent Python reader, re-emitted by the Coq encoder under a random layout and opened with
-Xls::new; worksheet_range of every sheet and vba_project() must equal those of the original."""
+Spec side: the streams the generator put in.  Every container has a storage hierarchy (parents) and a
+legal MS-CFB sibling tree (links; checked by the model's legal_treeb).  Names are unique per storage
+only: the families dual_format (root Workbook + Book), dup_names (the same name in different storages)
+and xls_e2e (Xls::new + worksheet_range on such containers) exercise the flat name lookup.
+End to end: real .xls fixtures are parsed by a small independent Python reader, re-emitted by the Coq
+encoder under a random layout and opened with Xls::new; worksheet_range of every sheet and
+vba_project() must equal those of the original."""
 import os, struct
 import vlib
+import xlsgen
 
 ASSUMPTIONS = [
-    "stream names: 1..31 UTF-16 units, no NUL, unique over the whole directory (calamine looks names up in a flat list), different from the root entry's name",
+    "object names: 1..31 UTF-16 units, no NUL, different from the root entry's name, unique per STORAGE (MS-CFB 2.6.1), not over the whole "
+    "file: containers holding the same name in different storages are generated (families dup_names, xls_e2e); calamine looks a name up "
+    "in the flat directory array, which is right under the precondition first_slot (Cfb.v): no object (stream or storage, in any storage) "
+    "with the same name sits in a lower directory slot than the wanted one; outside it the case counts as class shadowed_name / shadowed_workbook",
     "stream sizes below 2^32 (the model's lists; version-4 files may declare more)",
     "the reader is a Cursor over the whole file (std::io::Read returning everything up to EOF)",
-    "hierarchy (red-black tree links) is not modelled: calamine ignores it",
+    "hierarchy: every generated container carries a legal sibling/child tree (MS-CFB 2.6.4 order: UTF-16 length, then code units with a-z "
+    "upper-cased only; node colours not modelled, all black); calamine never reads the links",
 ]
 
 EOC, FREE = 0xFFFFFFFE, 0xFFFFFFFF
@@ -28,7 +37,21 @@ STORAGE_POOL = ["_VBA_PROJECT_CUR", "VBA", "MBD0001", "\x06DataSpaces", "Forms"]
 def u16len(s):
     return len(s.encode("utf-16le")) // 2
 
+def units16(s):
+    b = s.encode("utf-16le", "surrogatepass")
+    return [b[i] | (b[i + 1] << 8) for i in range(0, len(b), 2)]
+
+def cfb_key(s):
+    """MS-CFB 2.6.4 sibling order (= Cfb.cfb_name_ltb): UTF-16 length, then the code units, a-z upper-cased"""
+    u = units16(s)
+    return (len(u), [x - 32 if 97 <= x <= 122 else x for x in u])
+
+def ukey(s):
+    """a name up to the case of a-z: two names of one storage must differ in this key to be sortable"""
+    return "".join(chr(ord(ch) - 32) if "a" <= ch <= "z" else ch for ch in s)
+
 def gen_name(rng, used):
+    """a fresh name; `used` holds the ukey of every name taken so far (global uniqueness, case of a-z ignored)"""
     for _ in range(100):
         k = rng.random()
         if k < 0.6:
@@ -38,8 +61,8 @@ def gen_name(rng, used):
         else:
             n = "".join(chr(rng.choice([rng.randrange(1, 0x7F), rng.randrange(0xA0, 0xD7FF), rng.randrange(0xE000, 0xFFFD),
                                         rng.randrange(0x10000, 0x10FFFF)])) for _ in range(rng.randrange(1, 9)))
-        if n not in used and n != "Root Entry" and 1 <= u16len(n) <= 31 and "\0" not in n:
-            used.add(n)
+        if ukey(n) not in used and n != "Root Entry" and 1 <= u16len(n) <= 31 and "\0" not in n:
+            used.add(ukey(n))
             return n
     raise RuntimeError("name generation")
 
@@ -164,13 +187,61 @@ def lay_text(l):
 def hx(s):
     return s.encode("utf-8").hex() or "-"
 
-def write_line(cid, ss, storages, streams, lay):
+NOSTREAM = 0xFFFFFFFF
+
+def gen_parents(rng, nstor, nstream):
+    """the storage holding every object (storages first, then streams): 0 = the root storage, j >= 1 = the
+    j-th storage; a storage sits in the root or in an EARLIER storage"""
+    ps = [rng.randrange(0, j + 1) if rng.random() < 0.5 else 0 for j in range(nstor)]
+    ps += [rng.randrange(0, nstor + 1) if rng.random() < 0.6 else 0 for _ in range(nstream)]
+    return ps
+
+def gen_links(rng, storages, streams, parents, slots):
+    """a legal MS-CFB tree for the hierarchy `parents`: per storage (root included) the children sorted by
+    cfb_key form a binary search tree of RANDOM shape; the storage's child id is the slot of the tree's top,
+    left / right are slots.  Returns the (left, right, child) triples of the root entry, the storages, the
+    streams (order of `slots`)."""
+    names = list(storages) + [n for n, _ in streams]
+    n = len(names)
+    links = [[NOSTREAM, NOSTREAM, NOSTREAM] for _ in range(n + 1)]        # 0 = root entry, k + 1 = object k
+    def build(objs):
+        if not objs:
+            return NOSTREAM
+        r = rng.randrange(len(objs))
+        k = objs[r]
+        links[k + 1][0] = build(objs[:r])
+        links[k + 1][1] = build(objs[r + 1:])
+        return slots[k]
+    for p in range(len(storages) + 1):                                    # storage p is object p - 1: links[p]
+        kids = sorted((k for k in range(n) if parents[k] == p), key=lambda k: cfb_key(names[k]))
+        links[p][2] = build(kids)
+    return [tuple(t) for t in links]
+
+def write_line(cid, ss, storages, streams, lay, parents=None, links=None):
     st = ";".join(hx(n) for n in storages) or "-"
     sm = ";".join("%s:%s" % (hx(n), b.hex() or "-") for n, b in streams) or "-"
-    return "%s\tcfb_write\t%d\t%s\t%s\t%s" % (cid, ss, st, sm, lay_text(lay))
+    pa = ",".join(str(p) for p in parents) if parents else "-"
+    lk = "/".join("%d,%d,%d" % tuple(t) for t in links) if links else "-"
+    return "%s\tcfb_write\t%d\t%s\t%s\t%s\t%s\t%s" % (cid, ss, st, sm, lay_text(lay), pa, lk)
 
 class Case:
     pass
+
+def wl(c):
+    return write_line(c.cid, c.ss, c.storages, c.streams, c.lay, c.parents, c.links)
+
+def nslots_of(c):
+    return len(c.lay["dir"]) * (c.ss // 128)
+
+def finish_case(rng, c, mode=None, force_nfat=None, surplus=True, random_slots=0.0):
+    """layout + legal tree for a case whose storages / streams / parents are set"""
+    c.lay = gen_layout(rng, c.ss, c.storages, c.streams, mode=mode, force_nfat=force_nfat, surplus=surplus)
+    n = len(c.storages) + len(c.streams)
+    if random_slots and rng.random() < random_slots:
+        c.lay["slots"] = rng.sample(range(1, nslots_of(c)), n)
+    c.links = gen_links(rng, c.storages, c.streams, c.parents, c.lay["slots"])
+    c.legal_meant = True
+    return c
 
 def make_case(rng, cid, ss, sizes=None, nstor=None, mode=None, force_nfat=None, names=None, surplus=True, tag="random"):
     used = set()
@@ -179,19 +250,64 @@ def make_case(rng, cid, ss, sizes=None, nstor=None, mode=None, force_nfat=None, 
     if sizes is None:
         sizes = [gen_size(rng, ss) for _ in range(rng.randrange(0, 7))]
     c.storages = [n for n in rng.sample(STORAGE_POOL, nstor if nstor is not None else rng.choice([0, 0, 1, 2]))]
-    used.update(c.storages)
+    used.update(ukey(n) for n in c.storages)
     c.streams = []
     for k, sz in enumerate(sizes):
         n = names[k] if names else gen_name(rng, used)
         c.streams.append((n, gen_bytes(rng, sz)))
-    c.lay = gen_layout(rng, ss, c.storages, c.streams, mode=mode, force_nfat=force_nfat, surplus=surplus)
-    return c
+    c.parents = gen_parents(rng, len(c.storages), len(c.streams))
+    return finish_case(rng, c, mode=mode, force_nfat=force_nfat, surplus=surplus)
+
+# ------------------------------------------------------------------ names that are not unique over the file
+def all_names(c):
+    return list(c.storages) + [n for n, _ in c.streams]
+
+def depth_of(c, k):
+    d = 0
+    while c.parents[k] != 0:
+        k = c.parents[k] - 1
+        d += 1
+    return d
+
+def path_of(c, k):
+    names = all_names(c)
+    out = [names[k]]
+    while c.parents[k] != 0:
+        k = c.parents[k] - 1
+        out.append(names[k])
+    return "/".join(repr(x)[1:-1] for x in reversed(out))
+
+def name_table(c):
+    """name -> {objs, wanted, lowest}: the objects (indexes in storages + streams) carrying the name; the WANTED
+    one = the only one if the name is unique, else the one whose chain of parents up to the root is the
+    shortest (None when several are that close: nothing is demanded); lowest = the one in the lowest slot,
+    the one a scan of the flat directory array meets first"""
+    tbl = {}
+    for k, n in enumerate(all_names(c)):
+        tbl.setdefault(n, {"objs": []})["objs"].append(k)
+    slots = c.lay["slots"]
+    for n, e in tbl.items():
+        objs = e["objs"]
+        if len(objs) == 1:
+            e["wanted"] = e["lowest"] = objs[0]
+            continue
+        ds = [depth_of(c, k) for k in objs]
+        best = [k for k, d in zip(objs, ds) if d == min(ds)]
+        e["wanted"] = best[0] if len(best) == 1 else None
+        e["lowest"] = min(objs, key=lambda k: slots[k])
+    return tbl
 
 def ops_for(rng, c, absent=True):
     ops = []
+    seen = set()
     for n in c.storages:
-        ops.append(("h", n))
-    order = list(c.streams)
+        if n not in seen:
+            seen.add(n)
+            ops.append(("h", n))
+    order = []
+    for n, b in c.streams:
+        if n not in [x for x, _ in order]:
+            order.append((n, b))
     rng.shuffle(order)
     for n, b in order:
         ops.append(("h", n))
@@ -207,23 +323,36 @@ def ops_for(rng, c, absent=True):
 def ops_text(ops):
     return ";".join("n" if k == "n" else "%s:%s" % (k, hx(n)) for k, n in ops)
 
-def spec_answers(c, ops):
-    d = dict(c.streams)
-    names = set(c.storages) | set(d)
+def spec_answers(c, ops, tbl=None):
+    """what every op must answer (None: nothing demanded).  has_directory: 1 for every name some object of
+    the file carries.  get_stream: the bytes of the wanted object of that name (see name_table) when it is
+    a stream; names are unique per storage only, so several objects may carry the name."""
+    tbl = tbl or name_table(c)
+    nst = len(c.storages)
     out = ["new=ok"]
     for k, n in ops:
+        e = tbl.get(n)
         if k == "h":
-            out.append("1" if n in names else "0")
+            out.append("1" if e else "0")
         elif k == "g":
-            if n in d:
-                out.append("ok:" + d[n].hex())
-            elif n in names:
-                out.append(None)           # a storage: nothing demanded
-            else:
+            if e is None:
                 out.append("err:notfound")
+            elif e["wanted"] is None or e["wanted"] < nst:
+                out.append(None)           # a storage, or no entry is distinguished: nothing demanded
+            else:
+                out.append("ok:" + c.streams[e["wanted"] - nst][1].hex())
         else:
             out.append(None)
     return out
+
+def root_workbook(c):
+    """(index in streams, bytes) of the stream Excel means: Workbook of the root storage, else Book of the root storage"""
+    nst = len(c.storages)
+    for nm in ("Workbook", "Book"):
+        for k, (n, b) in enumerate(c.streams):
+            if n == nm and c.parents[nst + k] == 0:
+                return k, b
+    return None
 
 def same_outcome(i, m):
     """impl vs model; memory exhaustion of the real loop (alloc) = the model running out of fuel"""
@@ -242,18 +371,73 @@ def same_outcome(i, m):
         return False
     return True
 
+def parse_written(ans):
+    """answer of vm cfb_write -> dict(file, valid, known, fuel, legal, unique) or None"""
+    f = (ans or "").split("|")
+    if len(f) != 6:
+        return None
+    return {"file": f[0], "valid": f[1] == "1", "known": f[2], "fuel": f[3], "legal": f[4] == "1", "unique": f[5] == "1"}
+
+def check_written(ctx, c, line):
+    """generator vs model on what the generator meant: valid layout, legal tree, global uniqueness flag"""
+    ok = True
+    if not c.valid:
+        if c.tag != "invalid":
+            ctx.disagreements.append({"function": "valid_layoutb(generator)", "case": line[:20000], "impl": "(n/a)",
+                                      "model": "valid=0 for a layout the generator meant to be valid"})
+        ok = False
+    if not c.legal and getattr(c, "legal_meant", True):
+        ctx.disagreements.append({"function": "legal_treeb(generator)", "case": line[:20000], "impl": "(n/a)",
+                                  "model": "legal=0 for links the generator meant to be a legal MS-CFB tree"})
+    names = all_names(c)
+    if c.unique != (len(set(names)) == len(names)):
+        ctx.disagreements.append({"function": "names_uniqueb(generator)", "case": line[:20000], "impl": "(n/a)",
+                                  "model": "unique=%d, generator: %d distinct names of %d" % (c.unique, len(set(names)), len(names))})
+    return ok
+
+def check_w(ctx, c, w_ans, line):
+    """the model-only op w (= the bytes Xls::parse_workbook reads) against the specification (the root storage's
+    Workbook, else its Book) and against the model's own classifier known_C13"""
+    rw = root_workbook(c)
+    if rw is None:
+        ctx.count("w:no_root_workbook")
+        if c.known != "-":
+            ctx.disagreements.append({"function": "known_C13(model)", "case": line[:20000], "impl": "(n/a)",
+                                      "model": "known=%s although the root storage has neither Workbook nor Book" % c.known})
+        return
+    exp = "ok:" + rw[1].hex()
+    nst = len(c.storages)
+    if c.tag == "dual_format":
+        ctx.count("w:dual_format")
+        if w_ans != exp or c.known != "-":
+            ctx.disagreements.append({"function": "workbook_or_book(model vs spec)", "case": line[:20000], "impl": "(n/a)",
+                                      "model": "known=%s w=%s; the root storage's %s is %s" % (c.known, w_ans[:200], c.streams[rw[0]][0], exp[:200])})
+    elif c.known == "-":
+        ctx.count("w:root_workbook_read")
+        if w_ans != exp:
+            ctx.disagreements.append({"function": "known_C13(model)", "case": line[:20000], "impl": "(n/a)",
+                                      "model": "known=- but w=%s is not the root storage's %s %s" % (w_ans[:200], c.streams[rw[0]][0], exp[:200])})
+    else:
+        ctx.count("w:" + c.known)
+        # the entry reached instead must show in the bytes: only demanded when no other Workbook / Book object
+        # has the same content as the wanted one (a storage reads as the empty stream)
+        others = [(b"" if k < nst else c.streams[k - nst][1]) for k, n in enumerate(all_names(c))
+                  if n in ("Workbook", "Book") and k != nst + rw[0]]
+        if rw[1] not in others and w_ans == exp:
+            ctx.disagreements.append({"function": "known_C13(model)", "case": line[:20000], "impl": "(n/a)",
+                                      "model": "known=%s but w is the root storage's %s" % (c.known, c.streams[rw[0]][0])})
+
 def run_cases(ctx, cases, rng):
     """encode with the extracted encoder; read with the code and the model; three-way compare"""
-    enc = ctx.run_model([write_line(c.cid, c.ss, c.storages, c.streams, c.lay) for c in cases])
+    enc = ctx.run_model([wl(c) for c in cases])
     lines, meta = [], {}
     for c in cases:
         a = enc.get(c.cid, "")
-        f = a.split("|")
-        if len(f) != 4:
-            ctx.disagreements.append({"function": "cfb_write", "case": write_line(c.cid, c.ss, c.storages, c.streams, c.lay)[:3000],
-                                      "impl": "(n/a)", "model": a[:200]})
+        f = parse_written(a)
+        if f is None:
+            ctx.disagreements.append({"function": "cfb_write", "case": wl(c)[:3000], "impl": "(n/a)", "model": a[:200]})
             continue
-        c.file, c.valid, c.known, c.fuel = f[0], f[1] == "1", f[2], f[3]
+        c.file, c.valid, c.known, c.fuel, c.legal, c.unique = f["file"], f["valid"], f["known"], f["fuel"], f["legal"], f["unique"]
         c.ops = ops_for(rng, c)
         c.line = "%s\tcfb\t%s\t%s\t%s" % (c.cid, c.file, c.fuel, ops_text(c.ops))
         lines.append(c.line)
@@ -262,9 +446,15 @@ def run_cases(ctx, cases, rng):
     # quick tier; they are still checked implementation-vs-specification
     skip_model = set(c.cid for c in meta.values() if getattr(c, "no_model_read", False))
     impl = ctx.run_impl(lines)
-    model = ctx.run_model([l for l in lines if l.split("\t", 1)[0] not in skip_model])
+    # the model also answers the model-only op w (what Xls::parse_workbook would read), sent last
+    model = ctx.run_model([l + ";w" for l in lines if l.split("\t", 1)[0] not in skip_model])
     for cid, c in meta.items():
         i, m = impl.get(cid), model.get(cid)
+        w_ans = None
+        if m is not None:
+            mf = m.split(";")
+            if len(mf) == len(c.ops) + 2:          # nothing stopped the op sequence: the last answer is w's
+                w_ans, m = mf[-1], ";".join(mf[:-1])
         if cid in skip_model:
             m = i
             ctx.count("model_read_skipped(big file)")
@@ -274,6 +464,8 @@ def run_cases(ctx, cases, rng):
         ctx.count("layout:" + c.lay["mode"])
         ctx.count("fat_sectors:" + ("1" if len(c.lay["fat"]) == 1 else "2..109" if len(c.lay["fat"]) <= 109 else ">109"))
         ctx.count("difat_sectors:%d" % min(len(c.lay["difat"]), 3))
+        ctx.count("storages:%d" % len(c.storages))
+        ctx.count("nesting_depth:%d" % max([depth_of(c, k) for k in range(len(c.parents))] or [0]))
         for n, b in c.streams:
             ctx.count("stream:" + ("empty" if not b else "mini" if len(b) < 4096 else "regular"))
             if len(b) in (4095, 4096, 4097):
@@ -281,32 +473,46 @@ def run_cases(ctx, cases, rng):
         ctx.nontrivial(c.line.split("\t", 2)[2][:6000] + str(len(c.file)))
         ctx.sample({"case": cid, "ss": c.ss, "sizes": [len(b) for _, b in c.streams], "layout": lay_text(c.lay)[:300],
                     "file_bytes": len(c.file) // 2})
-        wl = write_line(c.cid, c.ss, c.storages, c.streams, c.lay)
+        gl = wl(c)
         if not same_outcome(i, m):
             ctx.disagreements.append({"function": "Cfb::new/get_stream", "case": c.line[:200000], "impl": (i or "")[:2000],
-                                      "model": (m or "")[:2000], "generator": wl[:20000]})
-        if not c.valid:
-            if c.tag != "invalid":
-                ctx.disagreements.append({"function": "valid_layoutb(generator)", "case": wl[:20000], "impl": "(n/a)",
-                                          "model": "valid=0 for a layout the generator meant to be valid"})
+                                      "model": (m or "")[:2000], "generator": gl[:20000]})
+        if not check_written(ctx, c, gl):
             continue
-        spec = spec_answers(c, c.ops)
+        tbl = name_table(c)
+        nst = len(c.storages)
+        if c.tag == "dual_format":
+            sl = {n: c.lay["slots"][nst + k] for k, (n, _) in enumerate(c.streams) if n in ("Workbook", "Book")}
+            ctx.count("dual:book_only" if "Workbook" not in sl else
+                      "dual:book_first" if sl["Book"] < sl["Workbook"] else "dual:workbook_first")
+        for n, e in tbl.items():
+            if len(e["objs"]) > 1 and e["wanted"] is not None and e["wanted"] >= nst:
+                ctx.count("dup:wanted_first" if e["wanted"] == e["lowest"] else "dup:shadowed")
+        if c.known != "-":
+            ctx.count("container_known:" + c.known)
+        if w_ans is not None:
+            check_w(ctx, c, w_ans, gl)
+        spec = spec_answers(c, c.ops, tbl)
         got = (i or "").split(";")
         bad = None
         for k, s in enumerate(spec):
             if s is None:
                 continue
             g = got[k] if k < len(got) else "(missing)"
-            if g != s:
+            e = tbl.get(c.ops[k - 1][1]) if (k >= 1 and c.ops[k - 1][0] == "g") else None
+            shadowed = bool(e) and len(e["objs"]) > 1 and e["wanted"] != e["lowest"]
+            if g == s:
+                if shadowed:
+                    # (the model scans the flat array: it then differs from the code, a disagreement above)
+                    ctx.count("dup:shadowed_but_read_correctly")
+                continue
+            if shadowed:
+                # class shadowed_name: an object of another storage with the same name sits in a lower slot
+                ctx.count("known_class:shadowed_name")
+                ctx.known_hits["shadowed_name"] = {"case": gl[:4000], "expected": s[:200], "actual": g[:200]}
+                continue
+            if bad is None:
                 bad = (k, s, g)
-                break
-        if c.known != "-":
-            ctx.count("known_class:" + c.known)
-            if bad:
-                ctx.known_hits["bom_name"] = {"case": wl[:4000], "expected": bad[1][:200], "actual": bad[2][:200]}
-            else:
-                ctx.notes.append("known class %s: case %s reads correctly" % (c.known, cid))
-            continue
         if bad:
             k, s, g = bad
             gen_note = ""
@@ -314,12 +520,17 @@ def run_cases(ctx, cases, rng):
                 # too big for a replay file: keep the generator command in a side file
                 gp = os.path.join(vlib.ROOT, "replays", "C13-generator-%s-%d.txt" % (cid, ctx.seed))
                 os.makedirs(os.path.dirname(gp), exist_ok=True)
-                open(gp, "w").write(wl + "\n" + ops_text(c.ops) + "\n")
+                open(gp, "w").write(gl + "\n" + ops_text(c.ops) + "\n")
                 gen_note = " [generator file %s]" % gp
             what = "open" if k == 0 else "%s(%r)" % ({"h": "has_directory", "g": "get_stream"}[c.ops[k - 1][0]], c.ops[k - 1][1])
+            dup = ""
+            if k >= 1 and len(tbl.get(c.ops[k - 1][1], {"objs": []})["objs"]) > 1:
+                e = tbl[c.ops[k - 1][1]]
+                dup = " [the name is carried by %s; wanted %s, which is in the lowest slot of them]" % (
+                    ", ".join("%s (slot %d)" % (path_of(c, o), c.lay["slots"][o]) for o in e["objs"]), path_of(c, e["wanted"]))
             ctx.violations.append({"case": c.line[:400000], "expected": s[:4000], "actual": g[:4000], "model": (m or "")[:4000],
-                                   "what": "%s on a valid container (ss=%d, stream sizes %s, layout %s)%s: generator line %s" % (
-                                       what, c.ss, [len(b) for _, b in c.streams], c.lay["mode"], gen_note, wl[:3000])})
+                                   "what": "%s on a valid container (ss=%d, stream sizes %s, layout %s)%s%s: generator line %s" % (
+                                       what, c.ss, [len(b) for _, b in c.streams], c.lay["mode"], dup, gen_note, gl[:3000])})
 
 # ------------------------------------------------------------------ structured / boundary cases
 def boundary_cases(rng, tier):
@@ -347,6 +558,272 @@ def boundary_cases(rng, tier):
     for nm in ("\ufeffWorkbook", "\ufffeab", "\ubbef\u00bfx"):
         cases.append(make_case(rng, "b%d" % k, 512, sizes=[100], nstor=0, names=[nm], tag="bom_name")); k += 1
     return cases
+
+# ------------------------------------------------------------------ family A: dual-format files (Workbook + Book)
+def distinct_bytes(rng, size, taken, nonempty=False):
+    """content of about `size` bytes that differs from every content in `taken` (and is added to it)"""
+    if nonempty:
+        size = max(size, 1)
+    for t in range(50):
+        b = gen_bytes(rng, size) if t < 3 else rng.randbytes(size)
+        if b not in taken:
+            taken.add(b)
+            return b
+        if t >= 5:
+            size += 1
+    raise RuntimeError("content generation")
+
+def dual_case(rng, cid, ss, book_only=False):
+    """the root storage holds Workbook AND Book (different contents), as 'Excel 97-2003 & 5.0/95' files do,
+    or Book alone; 0..3 other streams, 0..2 storages; every name is unique over the file"""
+    c = Case()
+    c.cid, c.ss, c.tag = cid, ss, "dual_format"
+    taken = set()
+    c.storages = rng.sample(STORAGE_POOL, rng.randrange(0, 3))
+    used = set(ukey(n) for n in c.storages) | {ukey("Workbook"), ukey("Book")}
+    items = [] if book_only else [("Workbook", distinct_bytes(rng, gen_size(rng, ss), taken), 0)]
+    items.append(("Book", distinct_bytes(rng, gen_size(rng, ss), taken), 0))
+    for _ in range(rng.randrange(0, 4)):
+        items.append((gen_name(rng, used), gen_bytes(rng, gen_size(rng, ss)),
+                      rng.randrange(0, len(c.storages) + 1) if rng.random() < 0.6 else 0))
+    rng.shuffle(items)                       # (sequential layouts give slots in this order)
+    c.streams = [(n, b) for n, b, _ in items]
+    c.parents = gen_parents(rng, len(c.storages), 0) + [p for _, _, p in items]
+    return finish_case(rng, c, random_slots=0.5)
+
+def dual_cases(rng, n):
+    return [dual_case(rng, "da%d" % k, rng.choice([512, 512, 4096]), book_only=(k % 5 == 4)) for k in range(n)]
+
+# ------------------------------------------------------------------ family B: one name in several storages
+def dup_case(rng, cid, ss):
+    """duplicate names in DIFFERENT storages (legal: MS-CFB names are unique per storage).  All contents are
+    different and non-empty, so an answer tells which entry was read."""
+    c = Case()
+    c.cid, c.ss, c.tag = cid, ss, "dup_names"
+    taken = set()
+    content = lambda: distinct_bytes(rng, gen_size(rng, ss), taken, nonempty=True)
+    shape = rng.choice(["wb_mbd", "wb_mbd", "book_mbd", "vba2", "vba2"])
+    c.shape = shape
+    if shape == "wb_mbd":
+        # an embedded workbook object: MBD0001/Workbook next to the root's Workbook
+        two = rng.random() < 0.4
+        c.storages = ["MBD0001"] + (["MBD0002"] if two else [])
+        sparents = [0] * len(c.storages)
+        items = [("Workbook", content(), 0), ("Workbook", content(), 1)]
+        if two:
+            items.append(("Workbook", content(), 2))
+        if rng.random() < 0.3:
+            items.append(("\x01CompObj", content(), 1))
+            items.append(("\x01CompObj", content(), 0))
+    elif shape == "book_mbd":
+        # a BIFF5 file (root Book only) with an embedded BIFF8 workbook
+        c.storages, sparents = ["MBD0001"], [0]
+        items = [("Book", content(), 0), ("Workbook", content(), 1)]
+    else:
+        # the VBA project of the file and the VBA project of an embedded workbook: the same storage and
+        # stream names below different parents
+        c.storages = ["_VBA_PROJECT_CUR", "VBA", "MBD0001", "_VBA_PROJECT_CUR", "VBA"]
+        sparents = [0, 1, 0, 3, 4]
+        items = []
+        for nm in ("dir", "ThisWorkbook", "Module1"):
+            items.append((nm, content(), 2))
+            items.append((nm, content(), 5))
+        if rng.random() < 0.5:
+            items.append(("PROJECT", content(), 1))
+            items.append(("PROJECT", content(), 4))
+        if rng.random() < 0.5:
+            items.append(("Workbook", content(), 0))
+            items.append(("Workbook", content(), 3))
+    used = set(ukey(n) for n in c.storages) | set(ukey(n) for n, _, _ in items)
+    for _ in range(rng.randrange(0, 3)):
+        items.append((gen_name(rng, used), content(), rng.randrange(0, len(c.storages) + 1)))
+    rng.shuffle(items)
+    c.streams = [(n, b) for n, b, _ in items]
+    c.parents = sparents + [p for _, _, p in items]
+    return finish_case(rng, c, random_slots=0.7)
+
+def dup_cases(rng, n):
+    return [dup_case(rng, "dn%d" % k, rng.choice([512, 512, 4096])) for k in range(n)]
+
+# ------------------------------------------------------------------ family C: Xls::new on such containers
+def e2e_workbook(rng, salt):
+    """a BIFF8 workbook stream: one sheet Sheet1 with a few number cells whose values depend on salt"""
+    cells = [{"k": "number", "r": r, "c": cc, "v": float(1000 * salt + 10 * r + cc) + 0.5}
+             for r in range(rng.randrange(1, 4)) for cc in range(rng.randrange(1, 4))]
+    cells.append({"k": "number", "r": 5, "c": 0, "v": float(salt)})
+    pad = rng.choice([None, None, 2000, 4095, 4096, 4097, 5000, 9000])
+    b, _ = xlsgen.workbook_stream({"sheets": [{"name": "Sheet1", "cells": cells}]}, opts={"pad_to": pad} if pad else None)
+    return b
+
+E2E_CALLS = "sheets;wsall"
+E2E_SHAPES = [("a", "book_first"), ("a", "workbook_first"), ("b", None), ("c", "mbd_first"), ("c", "root_first"),
+              ("d", None), ("e", "mbd_first"), ("e", "root_first")]
+
+def e2e_case(rng, cid, ss, shape, order, sa, sb):
+    """(storages, streams with parents) of one end-to-end container; c.expect = "A" / "B": the workbook Excel shows"""
+    c = Case()
+    c.cid, c.ss, c.tag, c.shape, c.order = cid, ss, "xls_e2e", shape, order
+    used = {ukey(n) for n in ("Workbook", "Book", "MBD0001")}
+    c.storages, sparents = ([] if shape in ("a", "b") else ["MBD0001"]), ([] if shape in ("a", "b") else [0])
+    if shape == "a":
+        items = [("Workbook", sa, 0), ("Book", sb, 0)]
+        for _ in range(rng.randrange(0, 3)):
+            items.append((gen_name(rng, used), gen_bytes(rng, gen_size(rng, ss)), 0))
+    elif shape == "b":
+        items = [("Book", sb, 0)]
+    elif shape == "c":
+        items = [("Workbook", sa, 0), ("Workbook", sb, 1)]
+    elif shape == "d":
+        items = [("Book", sa, 0), ("Workbook", sb, 1)]
+    else:
+        items = [("Workbook", sa, 0), ("Workbook", sb, 1), ("Book", sb, 0)]
+    c.expect = "B" if shape == "b" else "A"
+    rng.shuffle(items)
+    c.streams = [(n, b) for n, b, _ in items]
+    c.parents = sparents + [p for _, _, p in items]
+    c.lay = gen_layout(rng, ss, c.storages, c.streams)
+    nst = len(c.storages)
+    n = nst + len(c.streams)
+    if rng.random() < 0.7:
+        c.lay["slots"] = rng.sample(range(1, nslots_of(c)), n)
+    # force the order of the two directory entries the case is about
+    idx = lambda nm, par: [nst + k for k, (x, _) in enumerate(c.streams) if x == nm and c.parents[nst + k] == par][0]
+    pair = None
+    if shape == "a":
+        pair = (idx("Book", 0), idx("Workbook", 0)) if order == "book_first" else (idx("Workbook", 0), idx("Book", 0))
+    elif shape in ("c", "e"):
+        pair = (idx("Workbook", 1), idx("Workbook", 0)) if order == "mbd_first" else (idx("Workbook", 0), idx("Workbook", 1))
+    if pair:
+        sl = c.lay["slots"]
+        if sl[pair[0]] > sl[pair[1]]:
+            sl[pair[0]], sl[pair[1]] = sl[pair[1]], sl[pair[0]]
+    c.links = gen_links(rng, c.storages, c.streams, c.parents, c.lay["slots"])
+    c.legal_meant = True
+    return c
+
+def e2e_describe(c):
+    nst = len(c.storages)
+    objs = []
+    for k, n in enumerate(all_names(c)):
+        if k < nst:
+            objs.append("storage %s (slot %d)" % (path_of(c, k), c.lay["slots"][k]))
+        else:
+            b = c.streams[k - nst][1]
+            objs.append("%s (slot %d, %d bytes%s)" % (path_of(c, k), c.lay["slots"][k], len(b),
+                                                      ", workbook A" if b is c.sa else ", workbook B" if b is c.sb else ""))
+    return "%s; sector size %d, layout %s" % (", ".join(objs), c.ss, c.lay["mode"])
+
+def run_e2e(ctx, npairs):
+    """Xls::new + sheet_names + worksheet_range of every sheet on containers holding two different workbooks
+    A and B under the names Workbook / Book, in the root storage / in MBD0001.  Reference outputs: the same
+    calls on the single-stream containers {Workbook: A} and {Workbook: B}."""
+    rng = ctx.rng
+    d = vlib.tmpdir(ctx)
+    cases, refs = [], []
+    for p in range(npairs):
+        sa, sb = e2e_workbook(rng, 2 * p + 1), e2e_workbook(rng, 2 * p + 2)
+        pr = []
+        for which, b in (("A", sa), ("B", sb)):
+            r = Case()
+            r.cid, r.ss, r.tag = "er%d%s" % (p, which), 512, "xls_e2e_ref"
+            r.storages, r.streams, r.parents = [], [("Workbook", b)], [0]
+            finish_case(rng, r, mode="sequential", surplus=False)
+            pr.append(r)
+        refs.append(pr)
+        for k, (shape, order) in enumerate(E2E_SHAPES):
+            c = e2e_case(rng, "e%d_%d" % (p, k), rng.choice([512, 4096]), shape, order, sa, sb)
+            c.pair, c.sa, c.sb = p, sa, sb
+            cases.append(c)
+    everything = [r for pr in refs for r in pr] + cases
+    enc = ctx.run_model([wl(c) for c in everything])
+    olines, mlines = [], []
+    for c in everything:
+        f = parse_written(enc.get(c.cid, ""))
+        c.path = None
+        if f is None:
+            ctx.disagreements.append({"function": "cfb_write", "case": wl(c)[:3000], "impl": "(n/a)", "model": enc.get(c.cid, "")[:200]})
+            continue
+        c.valid, c.known, c.fuel, c.legal, c.unique = f["valid"], f["known"], f["fuel"], f["legal"], f["unique"]
+        if not check_written(ctx, c, wl(c)):
+            continue
+        c.path = os.path.join(d, c.cid + ".xls")
+        open(c.path, "wb").write(bytes.fromhex(f["file"]))
+        c.oline = "%s\topen\txls\t%s\t%s" % (c.cid, c.path, E2E_CALLS)
+        olines.append(c.oline)
+        if c.tag == "xls_e2e":
+            mlines.append("%s\tcfb\t%s\t%s\tw" % (c.cid, f["file"], c.fuel))
+    impl = ctx.run_impl(olines)
+    model = ctx.run_model(mlines)
+    def drop(c):
+        try:
+            if c.path:
+                os.remove(c.path)
+        except OSError:
+            pass
+    ref_out = {}
+    for p, (ra, rb) in enumerate(refs):
+        oa, ob = impl.get(ra.cid) if ra.path else None, impl.get(rb.cid) if rb.path else None
+        if not oa or not ob or oa == ob or oa.startswith("openerr") or ob.startswith("openerr") or "panic" in oa + ob:
+            ctx.disagreements.append({"function": "xls_e2e reference", "case": getattr(ra, "oline", wl(ra)[:3000]),
+                                      "impl": "A: %s | B: %s" % ((oa or "")[:500], (ob or "")[:500]),
+                                      "model": "(two different workbooks in single-stream containers must open and print differently)"})
+        else:
+            ref_out[p] = {"A": oa, "B": ob}
+        drop(ra); drop(rb)
+    for c in cases:
+        if not c.path:
+            continue
+        if c.pair not in ref_out:
+            drop(c)
+            continue
+        ref = ref_out[c.pair]
+        got = impl.get(c.cid) or ""
+        w = (model.get(c.cid) or "").split(";")
+        w = w[1] if len(w) == 2 and w[0] == "new=ok" else ";".join(w)
+        gl = wl(c)
+        ctx.traces += 1
+        ctx.count("tag:xls_e2e")
+        ctx.count("e2e:shape_%s%s" % (c.shape, ":" + c.order if c.order else ""))
+        ctx.count("e2e:sector_size:%d" % c.ss)
+        ctx.count("e2e:layout:" + c.lay["mode"])
+        for n, b in c.streams:
+            if b is c.sa or b is c.sb:
+                ctx.count("e2e:workbook_stream:" + ("mini" if len(b) < 4096 else "regular"))
+        ctx.nontrivial("e2e" + gl[:6000])
+        # model tie: the bytes the model's parse_workbook reads decide which reference the code must print
+        pred = ref["A"] if w == "ok:" + c.sa.hex() else ref["B"] if w == "ok:" + c.sb.hex() else None
+        if pred is None:
+            ctx.disagreements.append({"function": "workbook_or_book(xls_e2e)", "case": c.oline, "impl": got[:2000],
+                                      "model": "w=%s: neither workbook A nor workbook B" % w[:300], "generator": gl[:20000]})
+        elif got != pred:
+            ctx.disagreements.append({"function": "Xls::new/parse_workbook vs workbook_or_book", "case": c.oline, "impl": got[:2000],
+                                      "model": "reads workbook %s: %s" % ("A" if pred is ref["A"] else "B", pred[:2000]),
+                                      "generator": gl[:20000]})
+        # the model's classifier against the bytes the model reads
+        if w.startswith("ok:") and ((c.known == "-") != (w == "ok:" + (c.sa if c.expect == "A" else c.sb).hex())):
+            ctx.disagreements.append({"function": "known_C13(model)", "case": gl[:20000], "impl": "(n/a)",
+                                      "model": "known=%s, w reads workbook %s, the root storage's workbook is %s" % (
+                                          c.known, "A" if w == "ok:" + c.sa.hex() else "B", c.expect)})
+        want = ref[c.expect]
+        if got == want:
+            if c.known != "-":
+                ctx.count("e2e:known_class_did_not_manifest")
+                if ctx.distribution["e2e:known_class_did_not_manifest"] <= 3:
+                    ctx.notes.append("known class %s did not manifest: %s reads the root storage's workbook (%s)" % (c.known, c.cid, e2e_describe(c)))
+            ctx.count("e2e:reads_root_workbook")
+            drop(c)
+        elif c.known == "shadowed_workbook":
+            ctx.count("known_class:shadowed_workbook")
+            ctx.known_hits["shadowed_workbook"] = {"case": gl[:4000], "expected": want[:300], "actual": got[:300],
+                                                   "container": e2e_describe(c)}
+            drop(c)
+        else:
+            # (the file stays: the replay opens it again)
+            ctx.violations.append({"case": c.oline, "expected": want[:3000], "actual": got[:3000], "model": w[:200],
+                                   "what": "Xls::new + worksheet_range on a container holding %s; expected the cells of workbook %s, the "
+                                           "root storage's %s (actual = reference of workbook %s): generator line %s" % (
+                                               e2e_describe(c), c.expect, "Book" if c.shape in ("b", "d") else "Workbook",
+                                               "B" if got == ref["B"] else "A" if got == ref["A"] else "neither A nor B", gl[:3000])})
 
 # ------------------------------------------------------------------ malformed inputs (model tie only)
 def malformed_cases(rng, valid_cases, n):
@@ -486,9 +963,12 @@ def run_fixtures(ctx, per_file):
             c.cid = "f%d_%d" % (len(jobs), k)
             c.ss = rng.choice([512, 4096])
             c.storages, c.streams, c.src = storages, streams, p
+            # (the reader above flattens the hierarchy: every object is re-emitted in the root storage)
+            c.parents = [0] * (len(storages) + len(streams))
             c.lay = gen_layout(rng, c.ss, storages, streams)
+            c.links = gen_links(rng, storages, streams, c.parents, c.lay["slots"])
             jobs.append(c)
-            wlines.append(write_line(c.cid, c.ss, storages, streams, c.lay))
+            wlines.append(wl(c))
     enc = ctx.run_model(wlines)
     lines, meta = [], {}
     calls = "sheets;wsall;vba"
@@ -496,10 +976,11 @@ def run_fixtures(ctx, per_file):
         lines.append("orig:%s\topen\txls\t%s\t%s" % (os.path.basename(p), p, calls))
     for c in jobs:
         f = enc.get(c.cid, "").split("|")
-        if len(f) != 4 or f[1] != "1":
+        if len(f) != 6 or f[1] != "1":
             ctx.disagreements.append({"function": "cfb_write(fixture)", "case": wlines[jobs.index(c)][:3000], "impl": "(n/a)",
                                       "model": "|".join(f[1:])[:200]})
             continue
+        ctx.count("fixture_tree_legal:%s" % f[4])
         path = os.path.join(d, c.cid + ".xls")
         open(path, "wb").write(bytes.fromhex(f[0]))
         c.path = path
@@ -517,7 +998,7 @@ def run_fixtures(ctx, per_file):
             ctx.violations.append({"case": "%s\topen\txls\t%s\t%s" % (cid, c.path, calls), "expected": (want or "")[:3000],
                                    "actual": (got or "")[:3000], "model": "(the model is not involved: the same streams re-laid out by cfb_write)",
                                    "what": "Xls::new + worksheet_range/vba_project of %s re-emitted with sector size %d, layout %s differs from the original; generator line %s"
-                                           % (os.path.basename(c.src), c.ss, c.lay["mode"], write_line(c.cid, c.ss, c.storages, c.streams, c.lay)[:2000])})
+                                           % (os.path.basename(c.src), c.ss, c.lay["mode"], wl(c)[:2000])})
         else:
             try:
                 os.remove(c.path)
@@ -541,17 +1022,34 @@ def run(ctx):
     n = ctx.scale(500, 4000)
     for k in range(n):
         cases.append(make_case(rng, "r%d" % k, rng.choice([512, 512, 4096])))
+    # names that are unique per storage only: dual-format files, embedded workbooks, two VBA projects
+    cases += dual_cases(rng, ctx.scale(60, 600))
+    cases += dup_cases(rng, ctx.scale(60, 600))
     # one file whose FAT really needs more than 109 sectors (7.2 MB, 512-byte sectors): the FAT
     # sectors listed in the DIFAT sector describe the end of the file
     cases = big_cases(ctx) + cases
     run_cases(ctx, cases, rng)
     run_malformed(ctx, malformed_cases(rng, cases, ctx.scale(300, 4000)))
+    run_e2e(ctx, ctx.scale(5, 38))
     run_fixtures(ctx, ctx.scale(2, 12))
+    drop_tmpdir(ctx)
+
+def drop_tmpdir(ctx):
+    """the scratch directory goes when nothing was kept in it (files of violations stay for the replay)"""
+    try:
+        os.rmdir(vlib.tmpdir(ctx))
+    except OSError:
+        pass
 
 def search(ctx):
     rng = ctx.rng
     cases = [make_case(rng, "x%d" % k, rng.choice([512, 4096])) for k in range(ctx.scale(600, 4000))]
+    cases += [dual_case(rng, "xa%d" % k, rng.choice([512, 4096]), book_only=(k % 5 == 4)) for k in range(ctx.scale(100, 600))]
+    cases += [dup_case(rng, "xn%d" % k, rng.choice([512, 4096])) for k in range(ctx.scale(100, 600))]
     run_cases(ctx, cases, rng)
+    if not ctx.violations:
+        run_e2e(ctx, ctx.scale(10, 40))
+    drop_tmpdir(ctx)
 
 def replay(ctx, rep):
     line = rep.get("case") or ""
@@ -560,10 +1058,10 @@ def replay(ctx, rep):
     import re
     mt = re.search(r"\[generator file ([^\]]+)\]", rep.get("what") or "")
     if mt and os.path.exists(mt.group(1)):
-        wl, ops = open(mt.group(1)).read().split("\n")[:2]
-        cid = wl.split("\t", 1)[0]
-        f = ctx.run_model([wl]).get(cid, "").split("|")
-        if len(f) == 4:
+        gl, ops = open(mt.group(1)).read().split("\n")[:2]
+        cid = gl.split("\t", 1)[0]
+        f = ctx.run_model([gl]).get(cid, "").split("|")
+        if len(f) >= 4:
             line = "%s\tcfb\t%s\t%s\t%s" % (cid, f[0], f[3], ops)
     impl = ctx.run_impl([line])
     cid = line.split("\t", 1)[0]
@@ -579,4 +1077,5 @@ def replay(ctx, rep):
         return 2
     if "\topen\t" in line:
         return 0 if got == exp else 1
-    return 0 if exp in (got or "").split(";") and (rep.get("actual") not in (got or "").split(";")) else 1
+    fields = [f[:4000] for f in (got or "").split(";")]       # (expected / actual are kept up to 4000 characters)
+    return 0 if exp in fields and (rep.get("actual") not in fields) else 1
